@@ -15,8 +15,8 @@
 (* TLC: for every text up to MaxLen over Alphabet and every sequence of      *)
 (* Next() calls: every read is inside the buffer (InBounds), each call       *)
 (* returns Scan(text, offset before the call) (Agrees), offsets never move   *)
-(* backwards across calls and the loop terminates (bounded, no deadlock      *)
-(* before "done").                                                           *)
+(* backwards across calls, and every call returns (CallReturns, checked under    *)
+(* weak fairness on a smaller bound).                                                           *)
 EXTENDS QFinderDefs
 
 CONSTANTS Alphabet, MaxLen
@@ -68,5 +68,5 @@ InBounds == bad = ""
 Agrees == phase = "ret" => <<match, offset>> = expect
 Monotone == [][offset' >= offset \/ phase = "mid"]_vars          \* only a failing word moves the cursor back, and only to `start`
 BackOnlyToStart == [][offset' < offset => offset' = start]_vars
-Terminates == <>(phase = "done" \/ (phase = "build"))            \* (with fairness) every started scan ends
+CallReturns == [](phase = "loop" => <>(phase \in {"idle", "done"}))   \* (with fairness) every call of Next() returns
 =============================================================================
